@@ -173,11 +173,12 @@ theorem dict_rt_full_false_wrapper :
       .obj [("items".toList, .obj [("item".toList, .arr [.num 1])])])])
       = ND.fail (.parser "Failed to bind object to any of the classes") := ⟨by rfl, by rfl⟩
 
-/-- C04-compound-str-as-int: `H(e=["1"])` → `{"e": ["1"]}` → `H(e=[1])` -/
-theorem dict_rt_full_false_compound :
+/-- formerly C04-compound-str-as-int (repaired in /repo a186187): with an int choice before the
+str choice, `H(e=["1"])` → `{"e": ["1"]}` now decodes to itself -/
+theorem compound_exact_type_first :
     encode compCtx .dict {} 3 comp_value = .ok (.obj [("e".toList, .arr [.str "1".toList])]) ∧
     decode benv0 compCtx {} 3 (.cls "H".toList) (.obj [("e".toList, .arr [.str "1".toList])])
-      = ND.pure comp_changed := ⟨by rfl, by rfl⟩
+      = ND.pure comp_value := ⟨by rfl, by rfl⟩
 
 /-- C04-derived-without-type: `WL(any=[DerivedElement(qname="a", value=X(a=1))])` → ParserError -/
 theorem dict_rt_full_false_derived :
